@@ -750,7 +750,7 @@ class Bincount(C13Entry):
                        "dec2": [24.3 + two, 24.3 + ten, 24.3 - thirty, -28.25 + hundred, 75.22],
                        "rmin": 5 / 3600., "rmax": 150 / 3600., "nbin": 10, "scale": None, "family": "pinned-by-test-suite"})
         modes = ["none", "scalar", "array"]
-        for i in range(ctx.n(54, 600)):
+        for i in range(ctx.n(45, 600)):
             kind = ["uniform", "cap", "cap"][i % 3]
             cs.append(self._case(ctx, r, kind, modes[(i // 3) % 3]))
         for i in range(ctx.n(18, 240)):
@@ -832,8 +832,8 @@ class Bincount(C13Entry):
             if isinstance(scale, list) and len(scale) == 1:          # size-1 array = scalar
                 outs.append(h.bincount(*a, scale=scale[0], getbins=False))
             forms = list(c.get("forms", []))
-            if forms:
-                forms += ["2d", "2dF"]       # N-d coordinate arrays, C and Fortran memory order (fixes/C13/0003, C13_lookup_id_2d)
+            if forms:                        # N-d coordinate arrays, C or Fortran memory order (fixes/C13/0003, C13_lookup_id_2d)
+                forms.append(["2d", "2dF"][(ra1.size + ra2.size) % 2])
             for form in forms:
                 o = bincount_form(form, h, depth, c["rmin"], c["rmax"], c["nbin"], ra1, dec1, ra2, dec2, sc, id2, rev, mn, mx)
                 unchanged("form " + form)
